@@ -522,8 +522,141 @@ fn threadhop_witness(frag: Option<String>) -> i32 {
     }
 }
 
+/// C08 on real OS threads: a guard fetched on one thread and dropped on another releases exactly its borrow - for
+/// the thread that fetched it, too.  Every guard kind x {dropped where it was fetched, moved to a fresh thread and
+/// dropped there, moved to a fresh thread and held there} x every follow-up acquisition on the fetching thread.
+fn sched_quiet() {
+    // expected panics (conflicting acquisitions) are part of the enumeration: keep stderr quiet
+    std::panic::set_hook(Box::new(|_| {}));
+}
+
+fn guardhop_witness(frag: Option<String>) -> i32 {
+    use shred::{Fetch, FetchMut, Read, ResourceId, Write};
+    #[derive(Default)]
+    struct A(u64);
+    #[derive(Default)]
+    struct B(u64);
+    enum G<'a> {
+        R(Fetch<'a, A>),
+        W(FetchMut<'a, A>),
+        Wid(FetchMut<'a, A>),
+        Sd((Read<'a, B>, Write<'a, A>)),
+    }
+    let t0 = Instant::now();
+    let mut results: Vec<Value> = Vec::new();
+    let mut failures = 0;
+    let kinds = ["fetch", "fetch_mut", "try_fetch_mut_by_id (dynamic id 3)", "system_data (Read<B>, Write<A>)"];
+    for (k, kname) in kinds.iter().enumerate() {
+        // 0: dropped on the fetching thread, 1: moved to a fresh thread and dropped there, 2: moved and still held there
+        for fate in 0..3u8 {
+            let mut world = World::empty();
+            world.insert(A(1));
+            world.insert(B(2));
+            let id3 = ResourceId::new_with_dynamic_id::<A>(3);
+            world.insert_by_id(id3.clone(), A(3));
+            let world = &world;
+            let mut bad: Vec<String> = Vec::new();
+            let g: G = match catch_unwind(AssertUnwindSafe(|| match k {
+                0 => G::R(world.fetch()),
+                1 => G::W(world.fetch_mut()),
+                2 => G::Wid(world.try_fetch_mut_by_id::<A>(id3.clone()).unwrap()),
+                _ => G::Sd(world.system_data()),
+            })) {
+                Ok(g) => g,
+                Err(_) => {
+                    // (state left behind by an earlier configuration: every configuration has a world of its own)
+                    failures += 1;
+                    results.push(json!({"guard": kname, "fate": "-", "problems": ["the first acquisition on a freshly built world panicked"]}));
+                    continue;
+                }
+            };
+            // what the guard holds: (A shared, A exclusive, A#3 exclusive, B shared)
+            let holds = match k {
+                0 => (true, false, false, false),
+                1 => (false, true, false, false),
+                2 => (false, false, true, false),
+                _ => (false, true, false, true),
+            };
+            let (tx, rx) = std::sync::mpsc::channel::<()>();
+            std::thread::scope(|s| {
+                let mut parked = None;
+                match fate {
+                    0 => drop(g),
+                    1 => {
+                        s.spawn(move || drop(g)).join().unwrap();
+                    }
+                    _ => {
+                        let (ready_tx, ready_rx) = std::sync::mpsc::channel::<()>();
+                        parked = Some(s.spawn(move || {
+                            let _keep = g;
+                            ready_tx.send(()).unwrap();
+                            let _ = rx.recv();
+                        }));
+                        ready_rx.recv().unwrap();
+                    }
+                }
+                let still = fate == 2;
+                // follow-up acquisitions on the fetching thread: (what, succeeds?) expected from the borrow rules alone
+                let a_sh_ok = !(still && holds.1);
+                let a_ex_ok = !(still && (holds.0 || holds.1));
+                let a3_ex_ok = !(still && holds.2);
+                let b_ex_ok = !(still && holds.3);
+                let probes: Vec<(&str, bool, Box<dyn Fn() -> bool + '_>)> = vec![
+                    ("fetch::<A>", a_sh_ok, Box::new(|| catch_unwind(AssertUnwindSafe(|| drop(world.fetch::<A>()))).is_ok())),
+                    ("fetch_mut::<A>", a_ex_ok, Box::new(|| catch_unwind(AssertUnwindSafe(|| drop(world.fetch_mut::<A>()))).is_ok())),
+                    ("try_fetch_mut_by_id::<A>(3)", a3_ex_ok, Box::new(|| catch_unwind(AssertUnwindSafe(|| drop(world.try_fetch_mut_by_id::<A>(ResourceId::new_with_dynamic_id::<A>(3))))).is_ok())),
+                    ("fetch_mut::<B>", b_ex_ok, Box::new(|| catch_unwind(AssertUnwindSafe(|| drop(world.fetch_mut::<B>()))).is_ok())),
+                    ("system_data::<(Write<B>, Read<A>)>", a_sh_ok && b_ex_ok, Box::new(|| catch_unwind(AssertUnwindSafe(|| drop(world.system_data::<(Write<B>, Read<A>)>()))).is_ok())),
+                ];
+                for (what, want, f) in &probes {
+                    let got = f();
+                    if got != *want {
+                        bad.push(format!("{} on the fetching thread {} but the borrow rules say it {}", what, if got { "succeeded" } else { "panicked" }, if *want { "succeeds" } else { "panics" }));
+                    }
+                }
+                drop(probes);
+                let _ = tx.send(());
+                if let Some(h) = parked {
+                    h.join().unwrap();
+                }
+            });
+            // everything released: exclusive access to every cell works
+            if catch_unwind(AssertUnwindSafe(|| {
+                drop(world.fetch_mut::<A>());
+                drop(world.fetch_mut::<B>());
+                drop(world.try_fetch_mut_by_id::<A>(id3.clone()));
+            }))
+            .is_err()
+            {
+                bad.push("a cell is still borrowed after every guard was dropped".to_string());
+            }
+            if !bad.is_empty() {
+                failures += 1;
+            }
+            let fate_name = ["dropped on the fetching thread", "moved to a fresh thread and dropped there", "moved to a fresh thread and held there"][fate as usize];
+            results.push(json!({"guard": kname, "fate": fate_name, "problems": bad}));
+        }
+    }
+    let shown: Vec<Value> = results.iter().filter(|r| r.get("problems").and_then(|p| p.as_array()).map_or(true, |a| !a.is_empty())).take(5).cloned().collect();
+    let out = json!({"engine":"E4 real-thread witness","what":"borrow rules across real OS threads on the unmodified crate: every guard kind (fetch, fetch_mut, by-id exclusive, two-member system data) x {dropped where fetched, moved to a fresh thread and dropped there, moved and held there} x five follow-up acquisitions on the fetching thread, then exclusive access to every cell; thread identity is outside the controlled runtime's model","configurations": results.len() * 5, "failures": failures, "failing_examples": shown, "wall_s": t0.elapsed().as_secs_f64()});
+    if let Some(p) = frag {
+        std::fs::write(p, serde_json::to_string_pretty(&out).unwrap()).unwrap();
+    }
+    println!("E4 real-thread guard witness: configurations={} failures={} wall={:.1}s", results.len() * 5, failures, t0.elapsed().as_secs_f64());
+    if failures > 0 {
+        3
+    } else {
+        0
+    }
+}
+
 fn main() {
     let args: Vec<String> = std::env::args().collect();
+    if args.get(1).map(|s| s.as_str()) == Some("--guardhop") {
+        let frag = args.iter().position(|a| a == "--frag").and_then(|i| args.get(i + 1).cloned());
+        sched_quiet();
+        std::process::exit(guardhop_witness(frag));
+    }
     if args.get(1).map(|s| s.as_str()) == Some("--threadhop") {
         let frag = args.iter().position(|a| a == "--frag").and_then(|i| args.get(i + 1).cloned());
         std::process::exit(threadhop_witness(frag));
